@@ -8,7 +8,8 @@ ASSUMPTIONS = [
     'malloc/new return fresh blocks with arbitrary contents and never fail',
     'sequential part only: one thread; the 2-grower concurrent part is a separate (later) instance',
 ]
-OUTSIDE = ('more than 3 grow_by calls before the operation / deltas above 2 / minBuffSize other than 1, 2 (second arena 2, 4); element types other than '
+OUTSIDE = ('move-assign/swap/move-construct after initialSize+deltas with third delta 2 (scenarios 18..26: solver timeout); '
+           'more than 3 grow_by calls before the operation / deltas above 2 / minBuffSize other than 1, 2 (second arena 2, 4); element types other than '
            'int32_t and an 8-byte trivially copyable struct; concurrent growers (handled by the concurrent instance); '
            'allocation failure')
 
@@ -37,6 +38,9 @@ def inst(op, minbuf, nsc, tiers, db=3, index='size_t', align=64, elem=0, suffix=
 
 
 INSTANCES = [inst(op, 1, 9, ['quick']) for op in range(5)] + \
-    [inst(op, 1, 9, ['thorough'], sc0=c, suffix='_s%d' % c) for op in range(6) for c in (0, 9, 18)] + \
+    [inst(op, 1, 9, ['thorough'], sc0=c, suffix='_s%d' % c) for op in range(6) for c in (0, 9, 18)
+     # move-assign / swap / move-construct with scenarios 18..26 (9 buffers: third deleteLater_ reallocation on the
+     # moved storage) do not finish within 1700 s -> not part of the tier, listed in OUTSIDE
+     if not (op in (2, 3, 4) and c == 18)] + \
     [inst(op, 2, 9, ['thorough']) for op in (0, 3)] + \
     [inst(op, 1, 9, ['thorough'], index='uint32_t', align=16, elem=1, suffix='_u32') for op in (0, 3)]
